@@ -67,6 +67,9 @@ func c05_12(c *core.Ctx, p *core.Prog) {
 		var msgs []string
 		// every return hands back the downstream error itself
 		for _, r := range core.Returns(fn) {
+			if c.Property != "C06" {
+				break
+			}
 			if len(r.Results) != 1 || core.Strip(r.Results[0]) != ssa.Value(d) {
 				msgs = append(msgs, fmt.Sprintf("the return at %s does not return the downstream call's error unchanged (an export failure is reported to the waiting callers as something else, e.g. success)", p.Pos(r.Pos())))
 			}
@@ -94,10 +97,12 @@ func c05_12(c *core.Ctx, p *core.Prog) {
 			}
 		}
 		if len(params) == 3 {
-			if ctxArg == nil || !fromParam(ctxArg, params[1]) {
+			if c.Property == "C18" && (ctxArg == nil || !fromParam(ctxArg, params[1])) {
 				msgs = append(msgs, "the downstream call does not receive this call's context")
 			}
-			if reqArg == nil || !fromParam(reqArg, params[2]) {
+			if c.Property != "C05" {
+				// the request clause belongs to C05
+			} else if reqArg == nil || !fromParam(reqArg, params[2]) {
 				msgs = append(msgs, "the downstream call does not receive this call's request")
 			} else {
 				// and from nothing else that carries telemetry: no pdata constructor in its slice
@@ -131,4 +136,5 @@ func joinMsgs(m []string) string {
 func init() {
 	register("C05", &core.Rule{ID: "C05.12", Title: "forwarders (export, Consume*) pass their own request on every path", Mod: core.ModCBP, Floor: 6, Run: c05_12})
 	register("C06", &core.Rule{ID: "C06.8", Title: "forwarders (export, Consume*) return the downstream error unchanged", Mod: core.ModCBP, Floor: 6, Run: c05_12})
+	register("C18", &core.Rule{ID: "C18.8", Title: "forwarders (export, Consume*) pass on the context they were given (the one C18.2 selected)", Mod: core.ModCBP, Floor: 6, Run: c05_12})
 }
